@@ -591,3 +591,141 @@ def syn1(ctx):
         r.analysed["%s_pairs" % gname] = [p[0] for p in pairs]
         r.analysed["%s_sites" % gname] = n_checked
     return r
+
+
+# ---------------------------------------------------------------- SHR-1 (C12: condensed rules)
+
+LISTS = ("input", "output", "context", "except")
+
+
+def _self_fields(node):
+    out = set()
+    for n in hirq.walk(node):
+        if n["e"] == "field" and n["name"] in LISTS and hirq.strip(n["a"]).get("local") == "self":
+            out.add(n["name"])
+    return out
+
+
+def shr1(ctx):
+    r = RuleResult("SHR-1", "condensed rules: each of the four lists is broadcast by its own length test (singleton shared, else element i)", floor=8)
+    lib = ctx.lib
+    b = ctx.fn(lib, "asca::rule::Rule::split_into_subrules")
+    root = b.hir["body"]
+    # let-bound index variables whose value is chosen by a length test
+    idx_cond = {}
+    for n in hirq.walk(root):
+        if n["e"] == "let" and n["pat"].get("p") == "bind" and n.get("init") is not None:
+            i0 = hirq.strip(n["init"])
+            if i0.get("e") == "if":
+                fs = _self_fields(i0["cond"])
+                if fs:
+                    idx_cond[n["pat"].get("hid", n["pat"]["name"])] = (fs, n["ln"])
+    n_acc = 0
+
+    def visit(node, conds):
+        nonlocal n_acc
+        if isinstance(node, dict):
+            if node.get("e") == "if":
+                visit(node["cond"], conds)
+                c2 = conds + [_self_fields(node["cond"])]
+                visit(node["then"], c2)
+                if node.get("else") is not None:
+                    visit(node["else"], c2)
+                return
+            acc = None
+            if node.get("e") == "index":
+                base = hirq.strip(node["a"])
+                if base.get("e") == "field" and base["name"] in LISTS and hirq.strip(base["a"]).get("local") == "self":
+                    acc = (base["name"], node["i"], node["ln"])
+            if node.get("e") == "mcall" and node["name"] in ("get", "get_mut"):
+                base = hirq.strip(node["recv"])
+                if base.get("e") == "field" and base["name"] in LISTS and hirq.strip(base["a"]).get("local") == "self" and node["args"]:
+                    acc = (base["name"], node["args"][0], node["ln"])
+            if acc:
+                fld, idx, ln = acc
+                i0 = hirq.strip(idx)
+                governing = set()
+                for c in conds:
+                    governing |= c
+                if i0.get("e") == "path" and "local" in i0 and i0.get("hid", i0["local"]) in idx_cond:
+                    governing |= idx_cond[i0.get("hid", i0["local"])][0]
+                if governing and not (i0.get("e") == "lit" and not conds):
+                    n_acc += 1
+                    ok = governing == {fld}
+                    r.inst("self.%s[..] is selected under a length test of %s" % (fld, sorted(governing)), fn_loc(b, ln), "ok" if ok else "report")
+                    if not ok:
+                        r.report("SHR-1|%s|%s" % (fld, "+".join(sorted(governing))), fn_loc(b, ln), b.path,
+                                 "the element of `%s` used for a sub-rule is chosen by the length of %s: lists of different shapes are broadcast wrongly"
+                                 % (fld, sorted(governing - {fld}) or sorted(governing)))
+            for v in node.values():
+                if isinstance(v, (dict, list)):
+                    visit(v, conds)
+        elif isinstance(node, list):
+            for v in node:
+                if isinstance(v, (dict, list)):
+                    visit(v, conds)
+    visit(root, [])
+    if n_acc < 8 and not r.reports:
+        raise AnchorMissing("split_into_subrules: only %d guarded list accesses found" % n_acc)
+    return r
+
+
+# ---------------------------------------------------------------- TAB-6b (C13: input aliases apply to every character read)
+
+
+def tab6b(ctx):
+    r = RuleResult("TAB-6b", "every character of the word text that enters a grapheme lookup buffer passes through Word::to_ipa", floor=9)
+    lib = ctx.lib
+    b = ctx.fn(lib, "asca::word::Word::fill_segments")
+    txt = None
+    for i, nme in enumerate(b.param_names):
+        if b.param_tys[i] == "&[char]":
+            txt = nme
+    if txt is None:
+        raise AnchorMissing("fill_segments: no `&[char]` parameter")
+    from engine_err import single_lets
+
+    def from_txt(e, depth=0):
+        e = hirq.strip(e)
+        if depth > 6 or not isinstance(e, dict):
+            return False
+        for n in hirq.walk(e):
+            if n["e"] == "path" and n.get("local") == txt:
+                return True
+        return False
+    lets = single_lets(b.hir["body"])
+    n = 0
+    for nd in hirq.walk(b.hir["body"]):
+        if nd["e"] == "mcall" and nd["name"] in ("push", "push_str", "insert") and (nd.get("def") or "").startswith("alloc::string::String::"):
+            a = hirq.strip(nd["args"][-1])
+            src = a
+            via = None
+            if a.get("e") == "path" and "local" in a and a["local"] in lets:
+                src = hirq.strip(lets[a["local"]])
+            raw = False
+            if src.get("e") == "lit":
+                via = "literal"
+            elif src.get("e") == "mcall" and (src.get("def") or "") == "asca::word::Word::to_ipa":
+                via = "to_ipa"
+            elif from_txt(src):
+                raw = True
+            else:
+                via = "other"
+            if via == "other" and not raw:
+                continue
+            n += 1
+            r.inst("fill_segments: %s(%s) into a lookup buffer" % (nd["name"], via or "raw text character"), fn_loc(b, nd["ln"]), "ok" if not raw else "report")
+            if raw:
+                r.report("TAB-6b|fill_segments|raw-push", fn_loc(b, nd["ln"]), b.path,
+                         "a character read from the word text is pushed into the grapheme buffer without Word::to_ipa: the documented input aliases (S Z C G ... g ? !) do not apply at this position")
+    # the first character of a grapheme
+    firsts = [nd for nd in hirq.walk(b.hir["body"]) if nd["e"] == "mcall" and nd["name"] == "to_string" and from_txt(nd["recv"])]
+    for nd in firsts:
+        ok = hirq.strip(nd["recv"]).get("e") == "mcall" and (hirq.strip(nd["recv"]).get("def") or "") == "asca::word::Word::to_ipa"
+        n += 1
+        r.inst("fill_segments: grapheme buffer starts from to_ipa(text char)", fn_loc(b, nd["ln"]), "ok" if ok else "report")
+        if not ok:
+            r.report("TAB-6b|fill_segments|raw-first", fn_loc(b, nd["ln"]), b.path, "the first character of a grapheme is taken from the text without Word::to_ipa")
+    if n < 6:
+        raise AnchorMissing("fill_segments: only %d buffer writes found" % n)
+    return r
